@@ -9,7 +9,7 @@
     theorems hold for ALL their values. *)
 From Coq Require Import List ZArith Permutation.
 From V Require Import Gen.Params Lib.Hex Wire.Varint UFrames.Model UFrames.ProofsBase UFrames.Proofs UFrames.ProofsFlight
-  UFrames.ScramModel UFrames.ProofsSni UFrames.ProofsScram.
+  UFrames.ProofsValidate UFrames.ScramModel UFrames.ProofsSni UFrames.ProofsScram.
 Import ListNotations.
 Open Scope Z_scope.
 
@@ -103,7 +103,7 @@ Print Assumptions C09_splitrange_partition.
     offsets and lengths included —, any parameters and any draws: every CRYPTO frame of every
     datagram lies inside the stream and carries the stream's own bytes at its absolute offset
     (no shifted or zero-extended range).  Completeness of the cover is what
-    validateInitialFlight checks afterwards (see notes: OPEN C09_flight_validated_complete). *)
+    validateInitialFlight checks afterwards: C09_flight_validated_complete below. *)
 Theorem C09_flight_true_bytes_partial : forall full,
   (forall dgs first wss, flight_frames dgs first full = Ok wss ->
      Forall (fun ws => Forall (true_frame full) (wcryptos ws) /\ wpads_ok ws) wss)
@@ -114,6 +114,31 @@ Proof.
                           (fun dgs first bs us wss bs' us' => rff_build_true dgs first full bs us wss bs' us')).
 Qed.
 Print Assumptions C09_flight_true_bytes_partial.
+
+(** BuildFlight of either in-tree flight builder succeeded AND validateInitialFlight (modelled
+    with clienthellod.ReadAllFrames over a bytes.Reader) accepted the serialised datagrams under
+    any budgets: then every byte of the CRYPTO stream is carried by a CRYPTO frame of some
+    datagram, and that frame holds the stream's own bytes at its absolute offset — the
+    ClientHello is complete across the datagrams of the flight. (If validation fails the packer
+    returns the error and sends nothing: planInitialFlight, not modelled here.) *)
+Theorem C09_flight_validated_complete : forall full budgets,
+  zlen full <= 2 ^ 48 ->
+  (forall dgs first wss, flight_frames dgs first full = Ok wss ->
+     validate (map encode wss) budgets (zlen full) = 0 ->
+     forall j, 0 <= j < zlen full ->
+       exists ws o d, In ws wss /\ In (o, d) (wcryptos ws) /\ o <= j < o + zlen d /\ true_frame full (o, d))
+  /\ (forall dgs first bs us wss bs' us', rff_build dgs first full bs us = Ok (wss, bs', us') ->
+     validate (map encode wss) budgets (zlen full) = 0 ->
+     forall j, 0 <= j < zlen full ->
+       exists ws o d, In ws wss /\ In (o, d) (wcryptos ws) /\ o <= j < o + zlen d /\ true_frame full (o, d)).
+Proof. exact flight_validated_complete. Qed.
+Print Assumptions C09_flight_validated_complete.
+
+Example C09_flight_validated_nonvacuous :
+  exists wss, flight_frames [[FCrypto (-2) 0; FPing]; [FPad 3; FCrypto 0 (-2)]] false [11; 12; 13; 14; 15] = Ok wss
+              /\ validate (map encode wss) [0] 5 = 0.
+Proof. exact flight_validated_example. Qed.
+Print Assumptions C09_flight_validated_nonvacuous.
 
 (** findSNIAndECH is total (one of three classes on every byte string) and, when it reports
     success, the input is exactly one handshake message of type ClientHello and the reported
